@@ -823,3 +823,58 @@ pub proof fn lemma_heap_done_exactly<K, N, E, T>(done: Seq<Node<K, N, E>>, h0: M
     }
     lemma_exactly_perm(a, done, root, acc, adj);
 }
+
+// ---- step lemmas that keep the recursion proofs small ----
+// the nodes that became visited since vis00 stay closed when the recursive call on v returns
+pub proof fn lemma_new_closed_step<K, N, E>(vis00: Set<K>, v0: Set<K>, v2: Set<K>, v: Node<K, N, E>, acc: spec_fn(Edge<K, N, E>) -> bool, adj: spec_fn(Node<K, N, E>) -> Seq<Edge<K, N, E>>)
+    requires keys_distinct::<K, N, E>(), universe::<K, N, E>().contains(v), new_closed(vis00, v0, acc, adj), closed_at(v, v2, acc, adj), new_closed(v0.insert(v.k()), v2, acc, adj),
+        forall|k: K| v0.contains(k) ==> v2.contains(k), forall|k: K| vis00.contains(k) ==> v0.contains(k),
+    ensures new_closed(vis00, v2, acc, adj)
+{
+    assert forall|u: Node<K, N, E>| #[trigger] universe::<K, N, E>().contains(u) && v2.contains(u.k()) && !vis00.contains(u.k()) implies closed_at(u, v2, acc, adj) by {
+        if v0.contains(u.k()) { assert(closed_at(u, v0, acc, adj)); }
+        else if v0.insert(v.k()).contains(u.k()) { lemma_keys(u, v); }
+    }
+}
+
+// postorder: after the recursive call on e.1 returned (r0 -> r2, v0+{e.1} -> v2) the edge e is recorded
+pub proof fn lemma_post_step<K, N, E>(r0: Seq<Edge<K, N, E>>, r2: Seq<Edge<K, N, E>>, v0: Set<K>, v2: Set<K>, e: Edge<K, N, E>, a: int, node: Node<K, N, E>, acc: spec_fn(Edge<K, N, E>) -> bool, adj: spec_fn(Node<K, N, E>) -> Seq<Edge<K, N, E>>)
+    requires 0 <= a <= r0.len(), pedges(r0, a, node, acc, adj), distinct_targets(r0), vis_sup(v0, r0),
+        !v0.contains(e.1.k()), e.0 == node, universe::<K, N, E>().contains(e.0), in_adj(e, adj), acc(e),
+        ext(v0.insert(e.1.k()), r0, v2, r2), vis_sup(v2, r2), distinct_targets(r2), pedges(r2, r0.len() as int, e.1, acc, adj),
+    ensures pedges(r2.push(e), a, node, acc, adj), distinct_targets(r2.push(e)), vis_sup(v2, r2.push(e)), v2.contains(e.1.k())
+{
+    reveal(ext);
+    let r3 = r2.push(e);
+    let v1 = v0.insert(e.1.k());
+    assert(v1.contains(e.1.k()));
+    assert forall|i: int| 0 <= i < r0.len() implies r2[i] == r0[i] by { assert(r2.take(r0.len() as int)[i] == r2[i]); }
+    assert forall|i: int| 0 <= i < r3.len() implies v2.contains((#[trigger] r3[i]).1.k()) by {
+        if i < r2.len() { assert(r3[i] == r2[i]); }
+    }
+    assert forall|i: int, j: int| 0 <= i < j < r3.len() implies (#[trigger] r3[i]).1.k() != (#[trigger] r3[j]).1.k() by {
+        if j < r2.len() { assert(r3[i] == r2[i] && r3[j] == r2[j]); }
+        else {
+            assert(r3[i] == r2[i]);
+            if i < r0.len() { assert(v0.contains(r0[i].1.k())); } else { assert(!v1.contains(r2[i].1.k())); }
+        }
+    }
+    assert forall|i: int| a <= i < r3.len() implies universe::<K, N, E>().contains((#[trigger] r3[i]).0) && in_adj(r3[i], adj) && acc(r3[i])
+        && (r3[i].0 == node || exists|j: int| i < j < r3.len() && r3[j].1 == r3[i].0) by {
+        if i < r0.len() {
+            assert(r3[i] == r0[i]);
+            if r0[i].0 != node {
+                let j = choose|j: int| i < j < r0.len() && r0[j].1 == r0[i].0;
+                assert(r3[j] == r0[j]);
+            }
+        } else if i < r2.len() {
+            assert(r3[i] == r2[i]);
+            if r2[i].0 != e.1 {
+                let j = choose|j: int| i < j < r2.len() && r2[j].1 == r2[i].0;
+                assert(r3[j] == r2[j]);
+            } else {
+                assert(r3[r2.len() as int].1 == e.1);
+            }
+        }
+    }
+}
